@@ -4,6 +4,7 @@ package conc
 
 import (
 	"bytes"
+	"context"
 	"encoding/json"
 	"fmt"
 	"os"
@@ -11,6 +12,7 @@ import (
 	goruntime "runtime"
 	"sort"
 	"strings"
+	"time"
 
 	"github.com/onflow/cadence/common"
 	"github.com/onflow/cadence/verifshim/vmaprange"
@@ -221,7 +223,11 @@ func c33RunVariant(bin string, v c33Variant) (*c33ChildOut, error) {
 	if v.CPUs > 0 {
 		args = append([]string{"taskset", "-c", fmt.Sprintf("0-%d", v.CPUs-1)}, args...)
 	}
-	cmd := exec.Command(args[0], args[1:]...)
+	// a corpus run takes seconds; a child still running after 5 minutes is killed and reported (e.g. a commit
+	// that never completes under one CPU configuration)
+	ctx, cancel := context.WithTimeout(context.Background(), 5*time.Minute)
+	defer cancel()
+	cmd := exec.CommandContext(ctx, args[0], args[1:]...)
 	env := os.Environ()
 	if v.GoMax > 0 {
 		env = append(env, fmt.Sprintf("GOMAXPROCS=%d", v.GoMax))
@@ -231,6 +237,9 @@ func c33RunVariant(bin string, v c33Variant) (*c33ChildOut, error) {
 	var so, se bytes.Buffer
 	cmd.Stdout, cmd.Stderr = &so, &se
 	if err := cmd.Run(); err != nil {
+		if ctx.Err() != nil {
+			return nil, fmt.Errorf("child did not terminate within 5 minutes (variant %+v): %s", v, trunc(se.String(), 800))
+		}
 		return nil, fmt.Errorf("%v: %s", err, trunc(se.String(), 1500))
 	}
 	var out c33ChildOut
@@ -334,7 +343,11 @@ func runC33(env *mc.Env) {
 		v := variants[i]
 		out, err := c33RunVariant(bin, v)
 		if err != nil {
-			env.R.Violation(fmt.Sprintf("%s|child-failed", v.Kind), c33Case{Variant: v}, err.Error())
+			class := "child-failed"
+			if strings.Contains(err.Error(), "did not terminate") {
+				class = "child-did-not-terminate"
+			}
+			env.R.Violation(fmt.Sprintf("%s|cpus=%d|maporder=%s|%s", v.Kind, v.CPUs, v.MapOrder, class), c33Case{Variant: v}, err.Error())
 			return
 		}
 		if v.CPUs > 0 && out.NumCPU != 0 && out.NumCPU != v.CPUs {
